@@ -89,7 +89,10 @@ CHECKS['C06'] = dict(
          'opening"; discarded and sequence accessors equal the numbers of discards and closed packets; opening an open '
          'packet and closing a closed one are identities; for platforms with one buffer size, after any history packet_size '
          'is the buffer size, at <= packet_size, an open packet has off_content <= at (is-empty <=> at = off_content) and '
-         'the saved content size is <= packet_size (open_packet_position, is_empty_iff_at_content_start). Not proved: '
+         'the saved content size is <= packet_size (open_packet_position, is_empty_iff_at_content_start); for platforms '
+         'installing buffers of different sizes whose histories start by opening a packet and never disable tracing, a closed '
+         'packet is parked at its end (closed_packet_is_parked_at_the_end: is-full is true, the next tracing call asks the back '
+         'end). Not proved: '
          'callback-protocol clauses (need closed => at = packet_size, false in the corners of F9) - evaluated on the '
          'implementation log by the oracle (tracer-invoked open only on a closed packet after a not-full answer, close '
          'only on an open packet, is-empty until the first record, buffer accessors).',
